@@ -146,6 +146,12 @@ impl LineParser {
                     line_index + 1
                 )
             }
+            if self.exit_code.is_some() {
+                bail!(
+                    "line {}: exit code given, but no shell expression specified. Did you forget to prefix the command with '$'?",
+                    line_index + 1
+                )
+            }
             return Ok(());
         }
         self.testcases.push(TestCase {
